@@ -139,7 +139,6 @@ structure Run where
   k : Nat := 0
   prev : St F
   cur : Option (List F × List F × List F × St F) := none
-  pending : Option (Status × List F × St F × Scales) := none
   last : Status
   out : List String := []
 
@@ -151,12 +150,11 @@ def stepRec (c : Ctx) (r : Run) (rec : Rec) (nextIsS : Bool) : Run :=
     let st := update P c.mufx par.miu x u v r.prev
     let line := s!"I {r.k} {hexOfFloat st.fx} {hexOfFloat st.eta} {showFloats st.rdual} {showFloats st.rprim} {showFloats st.rcent}"
     if nextIsS then
-      { r with k := r.k + 1, cur := some (x, u, v, st), pending := none, out := line :: r.out }
+      { r with k := r.k + 1, cur := some (x, u, v, st), out := line :: r.out }
     else
       -- no step was logged: the linear system was unstable or stage 1 failed; `done` on the current state
       let status := done P par x st
-      { r with k := r.k + 1, cur := none, pending := some (status, x, st, scalesAt P par.miu x u v), last := status,
-               out := line :: r.out }
+      { r with k := r.k + 1, cur := none, last := status, out := line :: r.out }
   | .S dx du dv =>
     match r.cur with
     | none => { r with out := "S bad" :: r.out }
@@ -179,7 +177,7 @@ def stepRec (c : Ctx) (r : Run) (rec : Rec) (nextIsS : Bool) : Run :=
       match outcome with
       | .next x' u' v' st' =>
         let line := s!"S {hexOfFloat smax} {showOptF s1} {hexOfFloat mg1} {showOptF s2} {hexOfFloat mg2} 0 {hexOfFloat (mgK st' (scalesAt P par.miu x' u' v'))}"
-        { r with cur := none, pending := none, prev := st', last := .maxIters, out := line :: r.out }
+        { r with cur := none, prev := st', last := .maxIters, out := line :: r.out }
       | .stop status x' u' v' st' =>
         let kind := if status == .failed then 2 else 1
         let sc' := scalesAt P par.miu x' u' v'
@@ -187,16 +185,12 @@ def stepRec (c : Ctx) (r : Run) (rec : Rec) (nextIsS : Bool) : Run :=
           | some _ => mgK st' sc'
           | none => huge
         let line := s!"S {hexOfFloat smax} {showOptF s1} {hexOfFloat mg1} {showOptF s2} {hexOfFloat mg2} {kind} {hexOfFloat mk}"
-        { r with cur := none, pending := some (status, x', st', sc'), prev := st', last := status, out := line :: r.out }
+        { r with cur := none, prev := st', last := status, out := line :: r.out }
   | .D xd ud vd =>
-    match r.pending with
-    | some (status, xm, stm, scm) =>
-      { r with pending := none, out := doneLine P par xm stm scm status :: r.out }
-    | none =>
-      -- the model expected the loop to go on: decide on the logged point
-      let st := update P c.mufx par.miu xd ud vd r.prev
-      let status := done P par xd st
-      { r with last := status, out := doneLine P par xd st (scalesAt P par.miu xd ud vd) status :: r.out }
+    -- on every path `done` is called with the state `update` leaves at the point it returns (stage-2 failure: reverted)
+    let st := update P c.mufx par.miu xd ud vd r.prev
+    let status := done P par xd st
+    { r with last := status, out := doneLine P par xd st (scalesAt P par.miu xd ud vd) status :: r.out }
   | .Z x v =>
     let (status, st) := noineq P c.mufx par x v
     let valid := FinTest.isFin (residual st)
